@@ -217,7 +217,10 @@ func (m *model) jsBody(i int) comp {
 			m.emit(Event{K: "ir", F: i, P: -1}) // `var [d] = it`: the iterator is not exhausted, so it is closed
 		}
 	}
-	if c.kind == "ok" {
+	// yield* is transparent for every completion (the exception keeps the stack of its throw site). Only yreturn differs on
+	// normal completion: the delegate's return() answers done, so the outer generator completes with a *return* completion —
+	// its finally blocks run, the statement after the yield* does not.
+	if c.kind == "ok" && f.Via != "yreturn" {
 		m.emit(Event{K: "a", F: i, P: -1})
 	}
 	return c
